@@ -1,7 +1,7 @@
 (** C15 -- SolutionBuffer / SlidingBoundariesArchive._remap / add_single as harness/py2v_sliding.py reads them from the CURRENT source
     (Generated/SlidingGen.v, rewritten on every run) against Model/Sliding.v: the three translated tests and indices are the model's,
     for all arguments; the statement-level facts are those the model renders. *)
-From Coq Require Import List Arith Bool ZArith QArith.
+From Coq Require Import List Arith Bool ZArith QArith Lia.
 From PV Require Import Base.ListUtil Base.QUtil Model.Store Model.Archive Model.Sliding Model.SlidingFacts Generated.SlidingGen.
 Import ListNotations.
 
@@ -9,6 +9,13 @@ Import ListNotations.
 Theorem gen_sample_idx_is_model : forall (d : nat) (srt : list Q),
   new_bnd1 d srt = map (fun j => nth (gen_sample_idx j (length srt) d) srt 0%Q) (seq 0 d) ++ [last srt 0%Q].
 Proof. intros. reflexivity. Qed.
+
+(** ... and that index is always INSIDE the sorted measures whenever there is at least one of them: the default of [nth] above is
+    never what a boundary is made of *)
+Theorem gen_sample_idx_in_range : forall (j size d : nat), (j < d)%nat -> (0 < size)%nat -> (gen_sample_idx j size d < size)%nat.
+Proof.
+  intros j size d Hj Hs. unfold gen_sample_idx. apply Nat.div_lt_upper_bound; [lia|]. nia.
+Qed.
 
 Section SlidingRefine.
 Variable P : Type.
@@ -20,6 +27,17 @@ Theorem gen_buf_full_is_model : forall (c : scfg) (buf : list entry),
   buf_full c buf = gen_buf_full (s_cap c) (length buf) /\
   buf_add c buf = (fun e => (if gen_buf_full (s_cap c) (length buf) then tl buf else buf) ++ [e]).
 Proof. intros. split; reflexivity. Qed.
+
+(** hence a buffer within its capacity stays within it, whatever is added and however often *)
+Theorem gen_buf_stays_within_capacity : forall (c : scfg) (es : list entry) (buf : list entry),
+  (0 < s_cap c)%nat -> (length buf <= s_cap c)%nat -> (length (fold_left (buf_add c) es buf) <= s_cap c)%nat.
+Proof.
+  intros c es; induction es as [|e es IH]; intros buf Hc Hb; cbn [fold_left]; [exact Hb|].
+  apply IH; [exact Hc|]. destruct (gen_buf_full_is_model c buf) as [_ ->]. unfold gen_buf_full.
+  destruct (Nat.leb_spec (s_cap c) (length buf)) as [Hfull|Hroom]; rewrite app_length; cbn [length].
+  - destruct buf as [|b0 buf]; cbn [tl length] in *; lia.
+  - lia.
+Qed.
 
 (** add_single remaps exactly when the running count is a multiple of the remap frequency (the count already includes the new entry,
     the buffer already holds it) *)
@@ -47,3 +65,5 @@ Print Assumptions gen_buf_full_is_model.
 Print Assumptions gen_remap_due_is_model.
 Print Assumptions gen_remap_not_due_is_model.
 Print Assumptions gen_sliding_facts_are_model.
+Print Assumptions gen_sample_idx_in_range.
+Print Assumptions gen_buf_stays_within_capacity.
